@@ -97,4 +97,31 @@ PROPS["C07"] = {
     "level_note": "Trusted: Lean kernel, Table 3-7 transcription, harness. Reader wiring (fragments/control frames) proved in a later step.",
 }
 
+PROPS["C06"] = {
+    "lean": ["WsVerif.Props.C06", "WsVerif.Bridge.C06"],
+    "rule": "Operation sequences over Write/WriteThrough/FlushFragment/Flush/ReadFrom/Grow (+ DisableFlush, SetExtensions, ResetOp): "
+            "exhaustive to depth 3 over an alphabet of sizes {0,1,avail-1,avail,avail+1,2*avail} relative to the buffer, for 4 (quick) / 8 "
+            "(thorough) constructors x both sides; buffers of every size 126..136 and 65536..65550 filled to avail-1/avail/avail+1 with "
+            "and without flushing disabled; every constructor incl. GetWriter size classes; random sequences up to 30 (quick) / 200 "
+            "(thorough) ops with extensions and failing/empty-read sources; WriteMessage at 0,1,125,126,65535,65536 bytes. Masks are drawn "
+            "from a per-case seeded math/rand and given to the model as input. The oracle parses the destination bytes with the C01 §5.2 "
+            "decoder and judges message shape, masking, RSV and byte accounting without reference to the model.",
+    "exhaustive_families": ["wr (depth-3 alphabet sequences per constructor)"],
+    "trusted_base": [
+        "Driver/C06.lean oracle (frame-stream well-formedness + byte accounting): my reading of the property",
+        "Model/Writer.lean mirrors wsutil/writer.go by hand (incl. gobwas/pool's size classes for GetWriter); tied by exact per-op "
+        "correspondence of results and destination writes, and Bridge.C06 (reserve, headerSize regenerated from source)",
+        "math/rand seeding makes ws.NewMask() an input; pbytes pool not modelled (functional behaviour only)",
+    ],
+    "assumptions": COMMON_ASSUME + ["at most the wsflate.MessageState send extension is attached (an extension whose SetBits errors makes "
+                                    "Write spin, DESIGN §7 N1)", "destination honours io.Writer (n == len(p) on success)"],
+    "level_text": "Kernel-checked so far: the header-reservation arithmetic (whatever fits the buffer's payload area needs a header that fits "
+                  "the reserved space, across 125/126 and 65535/65536, both sides), hence flushes never panic; exact wire bytes of Flush / "
+                  "FlushFragment / WriteThrough (one frame, §5.2 header, masked iff client with the drawn key, §5.3 payload) and their state "
+                  "updates; empty flush emits nothing; invariant at construction. PARTIAL: the all-histories invariant through the Write / "
+                  "ReadFrom / Grow loops is not yet a theorem — it is covered by ~13k exact model/implementation correspondences per run and "
+                  "the independent frame-stream oracle.",
+    "level_note": "Trusted: Lean kernel, the oracle's reading of the property, harness. Theorems so far are single-step; histories by correspondence.",
+}
+
 NOT_APPLICABLE = {}
